@@ -105,7 +105,17 @@ def run_logic(case):
         x = build_route(case['cls'], a, *case['route'])
         y = mk(case['other'], b) if side == 'obj' else make_promotable(case['other'], b)
         keep = [(x, a)] + ([(y, b)] if side == 'obj' else [])
+    # a stream operand's read position is part of the operand: park it somewhere and look again afterwards
+    parked = []
+    for o, d in keep:
+        if hasattr(o, 'pos') and len(d):
+            o.pos = (len(d) + 1) // 2
+            parked.append((o, o.pos))
     res = attempt(apply, op, x, y)
+    for o, p in parked:
+        require(o.pos == p, f'{op} moved the read position of a stream operand', before=p, after=o.pos, side=side, cls=type(o).__name__)
+    if not is_raised(res) and side == 'self' and type(x).__name__ in ('BitArray', 'BitStream'):
+        require(res is not x, f'x {op} x returned the mutable operand itself')
     if len(a) != len(b):
         require(is_raised(res, ValueError), 'unequal lengths must raise ValueError', got=res, la=len(a), lb=len(b))
         lab = 'unequal'
@@ -183,7 +193,12 @@ def run_shift(case):
             require(s is before, 'in-place shift rebound the name to another object')
             return s
         return (s << k) if op == '<<' else (s >> k)
+    park = None
+    if not inplace and hasattr(s, 'pos') and a:
+        s.pos = park = (len(a) + 1) // 2
     res = attempt(do)
+    if park is not None:
+        require(s.pos == park, 'a non-in-place shift moved the read position of its stream operand', before=park, after=s.pos)
     if k < 0 or a == '':
         require(is_raised(res, ValueError), 'shift by a negative amount / of an empty bitstring must raise ValueError', got=res, k=k, n=len(a))
         require(s.bin == a, 'failed shift modified the operand')
